@@ -40,10 +40,10 @@ ASSUMPTIONS = [
     'scattering angles within (0, pi]; float32(pi) exceeds pi by 9e-8, the reference uses the same float',
 ]
 BOUND = {
-    'quick': '9 kernels x all unit combinations x 3 precision modes x 4 layouts at the 8 SI magnitudes 1e-9..1e9 per quantity '
-    '(+ anchors 1.8 angstrom, 1 / 25.3 meV, 1 eV, 1/angstrom) x 8 scattering angles; 9 route / round-trip families x all units x '
+    'quick': '9 kernels x all unit combinations x 3 precision modes x 4 layouts at the SI magnitudes {1e-9, 1e-3, 0.37, 1e3, 1e9} per '
+    'quantity (+ anchors 1.8 angstrom, 1 / 25.3 meV, 1 eV, 1/angstrom) x 8 scattering angles; 9 route / round-trip families x all units x '
     '2 modes; all graph nodes and sub-graph builders x 2 unit sets x 2 dtypes',
-    'thorough': 'same with every decade 1e-9..1e9 (19 values) + 0.37 per quantity',
+    'thorough': 'same with every decade 1e-9..1e9 (19 values) + 0.37 per quantity (superset of the 8 magnitudes of DESIGN C01)',
 }
 REQUIRED_CLASSES = [
     'double_ok', 'single_ok', 'out_of_domain_single', 'layout_0d', 'layout_1d', 'layout_bcast', 'layout_perpixel', 'layout_2d',
@@ -59,7 +59,7 @@ Q_UNITS = ('1/angstrom', '1/nm', '1/m')
 UNITS_OF_KIND = {'time': TIME_UNITS, 'length': LEN_UNITS, 'energy': kin.ENERGY_UNITS, 'angle': kin.ANGLE_UNITS, 'inv_length': Q_UNITS}
 ARG_UNITS = {'wavelength': WAV_UNITS}  # by argument name, overrides the kind
 
-MAG8 = ('1e-9', '1e-6', '1e-3', '0.37', '1', '1e3', '1e6', '1e9')
+MAG_QUICK = ('1e-9', '1e-3', '0.37', '1e3', '1e9')
 MAG_DECADES = tuple(sorted({*(f'1e{k}' for k in range(-9, 10)), '0.37'}, key=Fraction))  # every decade of the stated range
 ANGLES8 = ('tiny', 'small', 'tenth', 'below_right', 'right', 'two', 'below_pi', 'pi')
 ANGLE_RAD = {
@@ -82,7 +82,7 @@ SITE = {name: f'conversion.tof.{name}' for name in KERNEL_NAMES}
 
 def _si_magnitudes(kind, tier):
     """List of SI magnitudes (mpf) for a quantity kind."""
-    mags = MAG_DECADES if tier == 'thorough' else MAG8
+    mags = MAG_DECADES if tier == 'thorough' else MAG_QUICK
     out = [hp.F(Fraction(m)) for m in mags]
     if kind == 'energy':
         out += [hp.F(Fraction('25.3')) * hp.MEV, hp.MEV, hp.EV]
